@@ -30,6 +30,8 @@ PROFILE = scenario.profile(
     extra_budget=(0, 60),
     c_classes=("inside", "hardbox", "on_bound", "on_bound", "outside", "far"),
     target_kinds=("quad", "quad", "l1", "maxn", "plateau", "plateau", "rosen", "linear", "const"),
+    # steep targets (values up to ~1e6-1e7) with a small reported SD make the GP covariance numerically singular
+    scales=(1.0, 1.0, 1e-2, 10.0, 1e2, 1e4, 1e5, 1e6, 1e6),
 )
 PROFILE_T = dict(PROFILE, maxD=6, extra_budget=(0, 200))
 N = {"quick": 400, "thorough": 6000}
@@ -205,8 +207,45 @@ def body_long(subseed):
                 sample=dict(subseed=p["subseed"], D=p["D"], variant=p["variant"]))
 
 
+N_STEEP = {"quick": 48, "thorough": 600}
+
+
+def steep_cases():
+    """Steep targets (values 1e4..1e7) with a small noise SD and the minimiser in a corner of the box, budgets of 120-250
+    evaluations: the regime in which the GP covariance becomes numerically singular on its own (no fault injection)."""
+    from hypothesis import strategies as st
+
+    @st.composite
+    def s(draw):
+        D = draw(st.integers(1, 3))
+        kind = draw(st.sampled_from(["quad", "l1", "quad"]))
+        scale = draw(st.sampled_from([1e4, 1e5, 1e6, 2.5e6]))
+        mode = draw(st.sampled_from(["specified", "specified", "declared"]))
+        corner = [draw(st.sampled_from([-1.0, 1.0, -1.0])) for _ in range(D)]
+        tgt = dict(kind=kind, c=corner, scale=scale, offset=0.0, z=dict(m=[0.0] * D, w=[5.0] * D, log=[False] * D), out="float",
+                   ccls=["on_bound"] * D, noise=dict(mode=mode, sigma=draw(st.sampled_from([1e-3, 1e-3, 1e-2])), hetero=0.0))
+        if kind == "quad":
+            tgt["A"] = [[1.0 if i == j else 0.0 for j in range(D)] for i in range(D)]
+        opts = {"random_seed": draw(st.integers(0, 1000)), "max_fun_evals": draw(st.sampled_from([120, 200, 250])), "display": "off"}
+        if mode == "specified":
+            opts["specify_target_noise"] = True
+        else:
+            opts["uncertainty_handling"] = True
+        x0 = [draw(st.sampled_from([1.5, 0.0, -4.0, 4.5])) for _ in range(D)]
+        return dict(D=D, coords=[dict(cls="tight", lb=-5.0, ub=5.0, plb=-5.0, pub=5.0)] * D, plaus_omitted=True, x0=x0, x0cls=["interior"] * D,
+                    spelling="a1", target=tgt, cons=None, options=opts, np_seed=draw(st.integers(0, 10**6)), budget_cls="normal",
+                    init_calls_pred=33)
+    return s()
+
+
+def body_steep(scn):
+    out = body(scn)
+    out["labels"] = list(out["labels"]) + ["steep"]
+    return out
+
+
 def plan(tier):
-    return [("runs", 16), ("rare", 16), ("long", 16)]
+    return [("runs", 16), ("rare", 16), ("long", 16), ("steep", 16)]
 
 
 def run_part(res, part, tier, seed, shard, nshards):
@@ -215,6 +254,8 @@ def run_part(res, part, tier, seed, shard, nshards):
         from hypothesis import strategies as st
         engine.hyp_sweep(res, st.integers(0, 2**32 - 1), body_long, runlevel.shard_count(N_LONG[tier], shard, nshards), seed * 1000 + 600 + shard,
                          case_timeout=1800)
+    elif part == "steep":
+        runlevel.sweep(res, None, N_STEEP[tier], seed + 271, shard, nshards, body_steep, strategy=steep_cases(), case_timeout=1800)
     elif part == "runs":
         runlevel.sweep(res, prof, N[tier], seed, shard, nshards, body)
     else:
@@ -226,7 +267,7 @@ def minimise(part, tier, sig, case, seed):
     mr = 12 if tier == "quick" else 40
     if part == "long":
         return {"case": case, "note": "problem sub-seed (a single integer)"}
-    if part == "runs":
+    if part in ("runs", "steep"):
         return runlevel.field_minimise(case, sig, body, max_runs=mr)
 
     def simp(c):
